@@ -17,7 +17,7 @@ FUNCS = ["digestion._return_digested_sequences", "digestion.digest", "digestion.
 def e1_conds(tier: str) -> List[Cond]:
     conds: List[Cond] = []
     t = 120 if tier == "quick" else 600
-    seqs = ["TI", "PEP"] if tier == "quick" else ["TI", "PEP", "KPEK"]
+    seqs = ["TI", "PEP", "AAA"] if tier == "quick" else ["TI", "PEP", "AAA", "KPEK", "AKAKA"]
     for seq in seqs:
         L = len(seq)
         for (npos, nint) in ((0, 0), (1, 0), (2, 0), (0, 1), (1, 1)):
